@@ -1,6 +1,8 @@
 package main
 
 import (
+	"sort"
+	"encoding/json"
 	"crypto/sha256"
 	"encoding/hex"
 	"flag"
@@ -193,6 +195,9 @@ type scenario struct {
 	InitDebug bool
 	Reqs      []int // request kinds, one thread each
 	Ops       []wop // one writer thread each
+	// sequential epilogue, after every thread has finished: these calls, then Config() and one request of every kind
+	Post      []wop
+	PostProbe bool
 }
 
 type runResult struct {
@@ -302,6 +307,41 @@ func (e *c07env) runSchedule(t *tracer, sc scenario, prefix []int, schedID int, 
 		}
 		step++
 	}
+	if len(sc.Post) > 0 || sc.PostProbe {
+		// the epilogue runs without the scheduler: no other thread is alive
+		if mutexGates {
+			installMutexGate(nil)
+		}
+		emitOp := func(id string, op wop) {
+			t.emit(map[string]any{"ev": "Begin", "t": id, "kind": op.Kind, "req": 0, "op": op.String()})
+			var errd bool
+			var fp string
+			switch op.Kind {
+			case "reconf":
+				errd = m.Reconfigure(e.cfg(op.Cfg)) != nil
+			case "setdebug":
+				m.SetDebug(op.B)
+			case "config":
+				fp, _ = configFingerprint(m.Config())
+			}
+			if op.Kind != "config" && !errd {
+				t.emit(map[string]any{"ev": "Commit", "t": id, "op": op.String()})
+			}
+			t.emit(map[string]any{"ev": "End", "t": id, "kind": op.Kind, "req": 0, "op": op.String(), "fp": fp, "err": errd, "gates": ""})
+		}
+		for i, op := range sc.Post {
+			emitOp(fmt.Sprintf("p%d", i), op)
+		}
+		if sc.PostProbe {
+			emitOp("pc", wop{Kind: "config"})
+			for k, rs := range e.reqs {
+				id := fmt.Sprintf("q%d", k)
+				t.emit(map[string]any{"ev": "Begin", "t": id, "kind": "request", "req": k, "op": "config"})
+				sv := serve(m, newReq(rs.Method, cloneHeader(rs.H)), nil)
+				t.emit(map[string]any{"ev": "End", "t": id, "kind": "request", "req": k, "op": "config", "fp": respFP(sv.w, sv.invoked), "err": false, "gates": ""})
+			}
+		}
+	}
 	return res
 }
 
@@ -369,16 +409,16 @@ func cmdC07(args []string) {
 		{"setdebug", "", true}, {"setdebug", "", false}, {"config", "", false}}
 	// scenarios: the ones the quantifier names first, then seeded ones
 	scens := []scenario{
-		{"A", true, []int{0}, []wop{{"reconf", "nil", false}}},
-		{"A", false, []int{0}, []wop{{"reconf", "B", false}, {"setdebug", "", true}}},
-		{"A", true, []int{0}, []wop{{"reconf", "B", false}}},
-		{"B", true, []int{3}, []wop{{"reconf", "A", false}, {"setdebug", "", false}}},
-		{"nil", false, []int{1}, []wop{{"reconf", "A", false}, {"setdebug", "", true}}},
-		{"A", false, []int{2}, []wop{{"reconf", "nil", false}, {"reconf", "B", false}}},
-		{"B", false, []int{4}, []wop{{"config", "", false}, {"reconf", "A", false}}},
-		{"A", true, []int{0, 3}, []wop{{"reconf", "B", false}}},
-		{"A", true, []int{5}, []wop{{"reconf", "nil", false}, {"reconf", "invalid", false}}},
-		{"A", false, []int{1}, []wop{{"setdebug", "", true}, {"config", "", false}}},
+		{"A", true, []int{0}, []wop{{"reconf", "nil", false}}, nil, false},
+		{"A", false, []int{0}, []wop{{"reconf", "B", false}, {"setdebug", "", true}}, nil, false},
+		{"A", true, []int{0}, []wop{{"reconf", "B", false}}, nil, false},
+		{"B", true, []int{3}, []wop{{"reconf", "A", false}, {"setdebug", "", false}}, nil, false},
+		{"nil", false, []int{1}, []wop{{"reconf", "A", false}, {"setdebug", "", true}}, nil, false},
+		{"A", false, []int{2}, []wop{{"reconf", "nil", false}, {"reconf", "B", false}}, nil, false},
+		{"B", false, []int{4}, []wop{{"config", "", false}, {"reconf", "A", false}}, nil, false},
+		{"A", true, []int{0, 3}, []wop{{"reconf", "B", false}}, nil, false},
+		{"A", true, []int{5}, []wop{{"reconf", "nil", false}, {"reconf", "invalid", false}}, nil, false},
+		{"A", false, []int{1}, []wop{{"setdebug", "", true}, {"config", "", false}}, nil, false},
 	}
 	for len(scens) < *nscen {
 		st := c07states[rng.Intn(len(c07states))]
@@ -406,6 +446,87 @@ func cmdC07(args []string) {
 		}
 	}
 	writeJSON(*out, map[string]any{"schedules": total, "scenarios": len(scens), "exhaustive_scenarios": exhaustive, "blocked": blocked,
+		"mutex_gates": mutexGates, "events": t.n, "samples": samples})
+}
+
+// ---------------------------------------------------------------- G: TLC-generated method-against-method scenarios
+
+// c07conc replays the scenarios written by ConcMC.tla: concurrent calls of the middleware's own methods (no request in
+// flight) under every schedule of their gate-to-gate segments, then a sequential epilogue and probes of the final state.
+func cmdC07Conc(args []string) {
+	fs := flag.NewFlagSet("c07conc", flag.ExitOnError)
+	cases := fs.String("cases", "", "scenarios written by TLC (ConcMC.tla)")
+	trace := fs.String("trace", "", "NDJSON trace to write")
+	limit := fs.Int("limit", 400, "schedules per scenario")
+	stride := fs.Int("stride", 1, "replay every stride-th scenario (offset by seed)")
+	need := fs.String("need", "", "only scenarios with a concurrent call whose name contains this (e.g. invalid, setdebug)")
+	out := fs.String("out", "", "summary JSON")
+	fs.Parse(args)
+	rng := newRand()
+	t := newTracer(*trace)
+	defer t.close()
+	e := newC07env()
+	e.emitRefs(t)
+	mutexGates := installMutexGate(nil)
+	type jop struct {
+		K string `json:"k"`
+		C string `json:"c"`
+		B bool   `json:"b"`
+	}
+	toWop := func(o jop) wop { return wop{Kind: o.K, Cfg: o.C, B: o.B} }
+	seen := map[string]bool{}
+	idx, off := 0, int(seedFromEnv())%*stride
+	schedID, total, blocked, exhaustive, scen := 0, 0, 0, 0, 0
+	var samples []any
+	readCases(*cases, func(line []byte) {
+		var c struct {
+			Init struct {
+				Icfg  string `json:"icfg"`
+				Debug bool   `json:"debug"`
+			} `json:"init"`
+			Par []jop `json:"par"`
+			Epi []jop `json:"epi"`
+		}
+		if err := json.Unmarshal(line, &c); err != nil {
+			fatal("bad scenario: %v", err)
+		}
+		sc := scenario{InitCfg: c.Init.Icfg, InitDebug: c.Init.Debug, PostProbe: true}
+		for _, o := range c.Par {
+			sc.Ops = append(sc.Ops, toWop(o))
+		}
+		for _, o := range c.Epi {
+			sc.Post = append(sc.Post, toWop(o))
+		}
+		// the concurrent calls form a multiset: (o1, o2) and (o2, o1) are the same scenario
+		names := []string{}
+		for _, o := range sc.Ops {
+			names = append(names, o.String())
+		}
+		sort.Strings(names)
+		if *need != "" && !strings.Contains(strings.Join(names, " "), *need) {
+			return
+		}
+		key := fmt.Sprint(sc.InitCfg, sc.InitDebug, names, sc.Post)
+		if seen[key] {
+			return
+		}
+		seen[key] = true
+		idx++
+		if (idx+off)%*stride != 0 {
+			return
+		}
+		n, b, ex := e.explore(t, sc, *limit, mutexGates, &schedID, rng)
+		scen++
+		total += n
+		blocked += b
+		if ex {
+			exhaustive++
+		}
+		if len(samples) < 3 && scen%50 == 7 {
+			samples = append(samples, map[string]any{"init": sc.InitCfg, "debug": sc.InitDebug, "concurrent": fmt.Sprint(sc.Ops), "epilogue": fmt.Sprint(sc.Post), "schedules": n})
+		}
+	})
+	writeJSON(*out, map[string]any{"schedules": total, "scenarios": scen, "exhaustive_scenarios": exhaustive, "blocked": blocked,
 		"mutex_gates": mutexGates, "events": t.n, "samples": samples})
 }
 
